@@ -4,6 +4,7 @@ import (
 	"context"
 	"errors"
 	"fmt"
+	"maps"
 	"math/rand"
 	"slices"
 	"strings"
@@ -905,12 +906,20 @@ func (d *dealer) syncCall(caller *wamp.Session, msg *wamp.Call) {
 
 	// Send INVOCATION to the endpoint that has registered the requested
 	// procedure.
+	args, kwargs := msg.Arguments, msg.ArgumentsKw
+	if callee.IsLocal() {
+		// The local handler may try to modify the payload. Give the
+		// invocation its own copy, as the broker does for events, so that the
+		// caller's message is not changed.
+		args = slices.Clone(args)
+		kwargs = maps.Clone(kwargs)
+	}
 	invMsg := &wamp.Invocation{
 		Request:      invocationID,
 		Registration: invk.regID,
 		Details:      details,
-		Arguments:    msg.Arguments,
-		ArgumentsKw:  msg.ArgumentsKw,
+		Arguments:    args,
+		ArgumentsKw:  kwargs,
 	}
 	select {
 	case callee.Send() <- invMsg:
